@@ -3,7 +3,7 @@ import json, os
 import vlib
 
 PROPS = ["C15"]
-EVERY = {"quick": 60, "thorough": 8}
+EVERY = {"quick": 60, "thorough": 40}
 NSIM = {"quick": 300, "thorough": 6000}
 
 
